@@ -108,9 +108,29 @@ def probe_specs(r):
     return qs
 
 
+def idle_specs(r):
+    """the loop is idle at every observation point: a registered job with attempts remaining is either inside a run
+    (suspended coroutine) or not yet due - nobody is left waiting past a due time (and no supervisor has silently
+    given up on a job it still lists)"""
+    qs = []
+    open_runs = {}
+    for i, ob in enumerate(r["obs"]):
+        for (_t, k, kind, _due) in ob.get("events", []):
+            if kind == "S":
+                open_runs[k] = open_runs.get(k, 0) + 1
+            elif kind in ("E", "X", "C"):
+                open_runs[k] = open_runs.get(k, 0) - 1
+        if ob.get("spin"):
+            break
+        for k, v in ob["jobs"].items():
+            if v[5] == 1 and v[4] == 1 and open_runs.get(k, 0) <= 0:
+                qs.append((f"spec lt {ob['now']} {v[0]}", {"what": "aio registered job with attempts left is overdue while the loop is idle", "key": k, "op": i, "due": v[0], "now": ob["now"]}))
+    return qs
+
+
 def c06_specs(r):
     """never more runs than the budget; retired when exhausted; gone for good"""
-    qs = probe_specs(r)
+    qs = probe_specs(r) + idle_specs(r)
     jobs = top_jobs(r)
     maxatt = {k: (1 if o["call"] == 5 else o.get("max_att", 0)) for k, o in jobs.items()}
     nstart, was_reg, gone = {}, set(), set()
@@ -187,7 +207,7 @@ def c10_specs(r):
 # ------------------------------------------------------------------------------------------ C11
 def c11_specs(r):
     """registered = created - deleted - retired at every quiescent point"""
-    qs = []
+    qs = idle_specs(r)
     for i, (o, ob) in enumerate(zip(r["scn"]["ops"], r["obs"])):
         before = {k for k, v in (r["obs"][i - 1]["jobs"] if i > 0 else {}).items() if v[5] == 1}
         now = {k for k, v in ob["jobs"].items() if v[5] == 1}
